@@ -33,6 +33,10 @@ ASSUMPTIONS = [
     'FRU area *parsers* are substituted by recorders of the bytes handed to them (their correctness is C15); '
     'InventoryCommonHeader is the real one',
     'termination of the real loops is observed (request cap), in the model it is fuel derived from the loop measure',
+    'an image with an info area whose length byte is 00h does not follow the storage format and is not judged by the '
+    'oracle (about 5 % of the generated images have one); the model follows the PROBED variant of _read_fru_area: as '
+    'shipped it reads 0 bytes and hands b\'\' to the parser, after fixes/C15-2.diff it raises DecodingError behind the '
+    '5-byte read (Model/FruXfer.readFruArea lenChk; requests_name_fru holds for both)',
     'faults inside a history step (request k answered with a bare completion code; write k storing only n bytes) are '
     'injected by the Lean device wrapper Spec.Fru.respondF (= the reference device while the plan is empty, theorem '
     'faultless_plan_is_reference_device); what a write must raise on an error completion code is C08, here only a short '
@@ -88,6 +92,11 @@ def fru_image(rng, areas):
         where[a] = off
         body += data
         off += len(data)
+    info = [k for k in 'cbp' if k in where]
+    if info and rng.random() < 0.05:
+        # an info area whose length byte is 00h (not a well-formed area; exercises the _read_fru_area variant
+        # of the model: 0 bytes read and b'' handed on / DecodingError - the oracle does not judge such an image)
+        body[where[rng.choice(info)] - 8 + 1] = 0
     hdr = bytearray([0x01, 0, where.get('c', 0) // 8, where.get('b', 0) // 8, where.get('p', 0) // 8,
                      where.get('m', 0) // 8, 0])
     hdr.append((-sum(hdr)) & 0xff)
@@ -105,6 +114,10 @@ def locate(image):
         o = image[idx] * 8
         if o:
             if o + 5 > len(image) or o + image[o + 1] * 8 > len(image):
+                return None
+            if image[o + 1] == 0:
+                # an info area is at least 8 bytes: a length byte 00h does not follow the storage format (whether
+                # such an area is handed to the parser as b'' or rejected with DecodingError is C15's business)
                 return None
             res[key] = image[o:o + image[o + 1] * 8]
         else:
@@ -230,6 +243,19 @@ def probe_shipped(drv):
     except Exception:  # noqa
         return False
     return any(len(t[1]) > 0 and t[1][0] != 7 for t in trace)
+
+
+def probe_len_chk(drv):
+    """Does _read_fru_area of the tree under test reject an info area whose length byte is 0
+    (fixes/C15-2.diff: `if count == 0: raise DecodingError` behind the 5-byte read) or read 0 bytes and hand
+    b'' to the parser (as shipped)?  (second variant flag of the model, Model/FruXfer.readFruArea lenChk)"""
+    img = bytes([0x01, 0x00, 0x01, 0x00, 0x00, 0x00, 0x00, 0xfe, 0x01, 0x00, 0x17, 0xc0, 0xc0, 0xc1, 0x00, 0xa7])
+    dev = {'limit': 32, 'cc': 0xCA, 'short': False, 'wmax': 16, 'frus': [(0, lean.hexs(img))]}
+    try:
+        out, _, _ = run_real(drv, dev, ['area', '0', 'c'])
+    except Exception:  # noqa
+        return False
+    return out == 'DecodingError'
 
 
 # ---------------------------------------------------------------------------------------
@@ -366,7 +392,7 @@ def one_case(ctx, drv, dev, op, shipped, compare=True):
     judge(ctx, dev, op, out, trace, dump)
     ctx.case((dev_line(dev), tuple(op)), nontrivial=len(trace) >= 2)
     if compare:
-        model = drv.ask('run %d %s' % (1 if shipped else 0, ' '.join(op)))
+        model = drv.ask('run %d %s' % (int(shipped), ' '.join(op)))
         parts = model.split(' | ')
         code = [out, dev10.show_trace(trace), dump]
         if parts != code:
@@ -423,7 +449,7 @@ def run_history(drv, dev, steps, shipped=False, compare=False):
                 raise
             except Exception as e:  # noqa
                 out = dev10.outcome_tag(e)
-            model = drv.ask('run %d %s' % (1 if shipped else 0, ' '.join(str(x) for x in st['op']))) if compare else None
+            model = drv.ask('run %d %s' % (int(shipped), ' '.join(str(x) for x in st['op']))) if compare else None
             last_dump = device.dump()
             res.append((cur, out, iface.trace[start:], last_dump, model))
     finally:
@@ -615,6 +641,8 @@ def directed_histories(rng, wl=16):
         for first in ('inv', 'hdr', 'area'):
             a = fru_image(rng, rng.choice(['cbpm', 'bp', 'cm', 'bpm']))
             b = fru_image(rng, rng.choice(['p', 'cb', 'pm', 'bm', 'cbpm']))
+            while mode == 'faulted' and len(b) <= wl:      # a fault at chunk k >= 1 needs two chunks
+                b = fru_image(rng, rng.choice(['cb', 'pm', 'bm', 'cbpm']))
             n = max(len(a), len(b)) + rng.choice([0, 8, 40])
             fid = rng.choice([0, 5, 255])
             oth = 9
@@ -700,9 +728,14 @@ def _range(rng, n):
 def run(ctx):
     drv = ctx.driver('drv_c10')
     rng = ctx.rng('c10')
-    shipped = probe_shipped(drv)
-    ctx.extra['model_variant'] = 'get_fru_multirecord_area as shipped (inner reads use FRU 0)' if shipped \
-        else 'get_fru_multirecord_area intended'
+    mr_shipped = probe_shipped(drv)
+    len_chk = probe_len_chk(drv)
+    # model flags of `run`: bit 0 = get_fru_multirecord_area as shipped, bit 1 = _read_fru_area rejects area length 0
+    shipped = (1 if mr_shipped else 0) | (2 if len_chk else 0)
+    ctx.extra['model_variant'] = ('get_fru_multirecord_area as shipped (inner reads use FRU 0)' if mr_shipped
+                                  else 'get_fru_multirecord_area intended') + \
+        ('; _read_fru_area rejects an area length byte 0 (fixes/C15-2.diff)' if len_chk
+         else '; _read_fru_area as shipped (area length byte 0: reads nothing, parser gets b\'\')')
     quick = ctx.tier == 'quick'
     nsample = 0
     hrng = ctx.rng('c10-history')
@@ -762,6 +795,15 @@ def run(ctx):
         if rng.random() < 0.2:
             dev['wmax'] = rng.choice([0, 1, 8, 15])
         go(dev, ['write', str(fid), str(off), lean.hexs(_blob(rng, ln))], 'write')
+    # 5a. directed: an info area whose length byte is 00h (the _read_fru_area variant of the model; not judged)
+    zimg = bytes([0x01, 0x00, 0x01, 0x02, 0x00, 0x00, 0x00, 0xfc,
+                  0x01, 0x00, 0x17, 0xc0, 0xc0, 0xc1, 0x00, 0xa7,
+                  0x01, 0x01, 0x00, 0x00, 0x00, 0x00, 0x00, 0xfe])
+    for fid in (0, 6):
+        zdev = {'limit': rng.choice([32, 8, 255]), 'cc': rng.choice(REJECT), 'short': False, 'wmax': 16,
+                'frus': [(0, lean.hexs(zimg if fid == 0 else _blob(rng, 24))), (6, lean.hexs(zimg))][:1 if fid == 0 else 2]}
+        for op in (['area', str(fid), 'c'], ['area', str(fid), 'b'], ['inv', str(fid)]):
+            go(zdev, op, 'zero-length-area')
     # 5. inventory images: header, each area, multirecord, whole inventory
     for _ in range(150 if quick else 1500):
         dev = gen_device(rng, images=True)
